@@ -434,7 +434,7 @@ def bounds(tier, seed):
     return {'programs': '%d roots (8 formats x {lo, -1/0, hi} x {scalar,(3,),(2,2)} + 3 scaled) x menu of %d events, BFS depth %d with dedup on '
                         '(format, codes, shape, status, rounding, overflow, shifting, op_sizing, scale, bias) of both heap objects%s; states with '
                         'n_word>52 not expanded' % (len(ROOTS), len(MENU), 2 if tier == 'quick' else 3,
-                                                    '' if tier == 'quick' else '; depth 2 without dedup'),
+                                                    '' if tier == 'quick' else ' from scalar / 1-d roots at an extreme code and scaled roots (depth 2 from the others); depth 2 without dedup'),
             'saturation': 'formats n_word in {1,2,8,31,32,33,52} x n_frac in {0,1,n,n+8} x 5 roundings x 4 routes x floats +-{2^e, 2^e-ulp: e in %s}, '
                           'DBL_MAX, Python ints +-(2^e+d), e in 30..70 step 4 + {62..65,100,128,500,1000}' % (BIG_E,),
             'seed': seed}
@@ -446,8 +446,14 @@ def shards(tier, seed):
         if tier == 'quick':
             out.append({'part': 'P', 'root': ri, 'first': None, 'depth': 2, 'dedup': True})
         else:
-            for e1 in range(0, len(MENU), 8):
-                out.append({'part': 'P', 'root': ri, 'first': [e1, min(len(MENU), e1 + 8)], 'depth': 3, 'dedup': True})
+            # depth 3 from the roots at an extreme code that are scalars or 1-d arrays, and from the scaled roots (the (2,2) and
+            # mid-value roots reach the same formats and modes; they keep the depth-2 searches): about half of the work of all roots
+            fi_, cc_, si_, sc_ = ROOTS[ri]
+            if sc_ or (cc_ != 'mid' and si_ < 2):
+                for e1 in range(0, len(MENU), 8):
+                    out.append({'part': 'P', 'root': ri, 'first': [e1, min(len(MENU), e1 + 8)], 'depth': 3, 'dedup': True, '_cost': 5})
+            else:
+                out.append({'part': 'P', 'root': ri, 'first': None, 'depth': 2, 'dedup': True})
             out.append({'part': 'P', 'root': ri, 'first': None, 'depth': 2, 'dedup': False})
     for nw in (1, 2, 8, 31, 32, 33, 52):
         out.append({'part': 'S', 'nw': nw})
